@@ -539,6 +539,24 @@ func (in *Interp) shapeKey(v Value, entry int64, depth int) string {
 			return "nil"
 		}
 		if types.Implements(x.T, in.P.errIface) {
+			// errors are opaque (message and fields of two errors of one group may differ), but their
+			// identity is not: a sentinel that existed before the call (strconv.ErrRange, io.EOF, a
+			// package-level errors.New) is compared with == or errors.Is by real code, and so is
+			// the chain of wrapped errors
+			switch e := x.V.(type) {
+			case *ErrObj:
+				if e.ID <= entry {
+					return fmt.Sprintf("err#%d", e.ID)
+				}
+				if e.Wrap != nil && depth < 6 {
+					return "errw(" + in.shapeKey(*e.Wrap, entry, depth+1) + ")"
+				}
+				return "err"
+			case *Ptr:
+				if depth < 6 {
+					return "errp<" + x.T.String() + ":" + in.shapeKey(e, entry, depth+1) + ">"
+				}
+			}
 			return "err"
 		}
 		return "I<" + x.T.String() + ":" + in.shapeKey(x.V, entry, depth+1) + ">"
